@@ -1,6 +1,9 @@
 import Chess.Lemmas.Reach
 import Chess.Lemmas.SpecSums
 import Chess.Lemmas.FenWrite
+import Chess.Lemmas.FnsEquiv.GameState
+import Chess.Lemmas.FnsEquiv.Piece
+import Chess.Lemmas.FnsEquiv.Position
 
 /-!
 # C04 — the position hash depends only on the position and is stable
@@ -49,3 +52,15 @@ end Chess.Props.C04
 #print axioms Chess.Props.C04.hash_route_independent
 #print axioms Chess.Props.C04.hash_survives_reimport
 #print axioms Chess.Props.C04.start_position_hash
+
+/-! ### Translation tie (C04.T)
+`tools/translate.py` regenerates `Chess/Gen/Fns.lean` from the Rust text of the leaf functions on every run (a
+parser, not patterns); the theorems below — proved in `Chess/Lemmas/FnsEquiv/*` and re-checked by the kernel whenever
+the generated term changes — say that the TRANSLATED code equals the hand-written model this file's theorems are
+about, for what indexes the key tables: the state byte (`STATE[bitfield]`), `Piece::as_index` and `Position::as_usize` (`PIECE[sq][index]`). A rewrite of the Rust text that keeps the meaning leaves them true; one that changes it breaks the
+theorem named after the function. -/
+#print axioms Chess.FnsEquiv.GameState_default_eq
+#print axioms Chess.FnsEquiv.GameState_en_passant_eq
+#print axioms Chess.FnsEquiv.GameState_set_en_passant_eq
+#print axioms Chess.FnsEquiv.Piece_as_index_eq
+#print axioms Chess.FnsEquiv.Position_as_usize_eq_of_valid
